@@ -5,3 +5,9 @@ From PFL Require Import Spec.Regex Oracle.ReMatch.
 Theorem C07_matcher : forall (r : re) (w : list N), re_matches r w = true <-> den r w.
 Proof. exact re_matches_spec. Qed.
 Print Assumptions C07_matcher.
+
+(* tie to the source: the characters escaped inside a character set, regenerated from regular_expression/python_regex.py *)
+From PFL Require Import Gen.PyConst Proofs.GenTieC07.
+Theorem C07_brackets_escape_from_source : In 46%N pyre_TO_ESCAPE_IN_BRACKETS /\ In 36%N pyre_TO_ESCAPE_IN_BRACKETS.
+Proof. split; [exact (proj1 brackets_escape_dot_dollar)|exact (proj1 (proj2 brackets_escape_dot_dollar))]. Qed.
+Print Assumptions C07_brackets_escape_from_source.
